@@ -634,6 +634,10 @@ func (c *compiler) buildLA(useTransitions, stats bool) {
 			for is := len(states) - 1; is >= 0; is, i = is-1, i-1 {
 				curr, sym := states[is], c.right[i]
 				if sym < c.grammar.Terminals {
+					if useTransitions {
+						// A terminal transition that ends the rule is followed by whatever follows the rule.
+						g[gt] = append(g[gt], c.selectGoto(curr, Sym(sym)))
+					}
 					break
 				}
 				// Inner rule's goto inherits outer follow set.
